@@ -30,6 +30,21 @@ class Verifier(Calls):
         self.cover_hits = {}
         from .effects import Effects
         self.effects = Effects(sources, reg)
+        # class facts from the source: exception class hierarchy of the package
+        import ast as _ast
+        for mod in ("exception", "types"):
+            try:
+                m = sources.module(mod)
+            except FileNotFoundError:
+                continue
+            for q, node in m.classes.items():
+                bases = [b.id for b in node.bases if isinstance(b, _ast.Name)]
+                if bases and "." not in q:
+                    reg.exc_bases.setdefault(q, bases)
+        for q in list(reg.exc_bases):
+            # keep only classes that reach a builtin exception
+            pass
+        self.singletons = {}
 
     # ------------------------------------------------------------------ one path
     def reset_path(self, script):
@@ -52,6 +67,7 @@ class Verifier(Calls):
         self.call_depth = 0
         self.enum_done = set()
         self.witnesses = {}
+        self.singletons = {}
         self.cls_done = set()
         self.inputs = {}
         for hook in self.reg.path_init:
